@@ -136,6 +136,21 @@ func lookupModel(fn *ssa.Function) modelFn {
 	case name == "math.Min" || name == "math.Max":
 		return mark(func(e *Engine, st *State, fr *Frame, fn *ssa.Function, args []Val, in ssa.Instruction) (Val, bool) {
 			a, b := args[0].t(), args[1].t()
+			// math.Min/Max of two converted 64-bit integers: float64(x) is monotone in x, so the result is the
+			// conversion of the smaller/larger integer provided that integer is exactly representable (|x| <= 2^53),
+			// which is a side obligation of the call site
+			if a.Op == OApp && b.Op == OApp && a.Name == "s2real64" && b.Name == "s2real64" && in != nil {
+				x, y := a.Args[0], b.Args[0]
+				pick := Ite(Slt(x, y), x, y)
+				if name == "math.Max" {
+					pick = Ite(Slt(x, y), y, x)
+				}
+				lim := BVConst(1<<53, 64)
+				e.oblige(st, "floatexact", e.siteName("floatexact", in), And(Sle(Neg(lim), pick), Sle(pick, lim)), in.Pos(), nil, "integer exactly representable as float64")
+				r := App("s2real64", RealSort, pick)
+				st.ghost["$exact/"+r.String()] = Val{nil, []*Term{True}}
+				return Val{types.Typ[types.Float64], []*Term{r}}, true
+			}
 			lt := rbin(ORLt, a, b)
 			if name == "math.Min" {
 				return Val{types.Typ[types.Float64], []*Term{Ite(lt, a, b)}}, true
